@@ -100,6 +100,8 @@ def write_ast(rng, phi, period_ns, default, halfstep=None):
 
 
 def main():
+    import astlib
+    astlib.AUTO_FUNCS = 0.2       # sqrt exp ln log pow at exact points in a fifth of the generated formulas
     rep = core.Report("C08")
     quick = core.tier() == "quick"
     # theorems of Units.tla on a finite domain: unit-independence of a duration, period notation, unit resolution
